@@ -570,6 +570,7 @@ class Engine:
         self.auto_inline = True   # crate-local acyclic helpers are executed, not havocked ...
         self.keep = []            # ... except callees matching these regexes (kept as trace events)
         self.auto_inline_max_blocks = 80
+        self.cut_blocks = set()     # blocks of the explored function at which a second visit ends the path (segment cut)
         self.inline_cyclic = False  # bounded-loop mode: cyclic crate functions are executed too (max_visits per block)
         self.auto_inline_depth = 5
         self.inlined_fns = set()
@@ -1094,7 +1095,29 @@ class Engine:
 
     # ---------------- exploration
     def explore(self, fn, args=None, start_bb=0, setup=None, max_visits=None):
-        """Run `fn` from `start_bb` with symbolic arguments. Returns list of Path."""
+        """Run `fn` from `start_bb` with symbolic arguments. Returns list of Path.
+        (Executed on a thread with a large stack: deep fork nesting recurses in Python.)"""
+        import sys
+        import threading
+        box = {}
+
+        def work():
+            try:
+                box["r"] = self._explore(fn, args, start_bb, setup, max_visits)
+            except BaseException as e:      # noqa: re-raised in the caller's thread
+                box["e"] = e
+        old = sys.getrecursionlimit()
+        sys.setrecursionlimit(max(old, 1000000))
+        threading.stack_size(1 << 30)
+        t = threading.Thread(target=work)
+        t.start()
+        t.join()
+        threading.stack_size(0)
+        if "e" in box:
+            raise box["e"]
+        return box["r"]
+
+    def _explore(self, fn, args=None, start_bb=0, setup=None, max_visits=None):
         global _counter
         self.paths = []
         self.solver.reset()
@@ -1173,6 +1196,9 @@ class Engine:
                 resume = None
             if resume is None:
                 v = frame.visits.get(bb, 0)
+                if v >= 1 and len(st.frames) == 1 and bb in self.cut_blocks:
+                    self._end(st, "cut", "loop:bb%d" % bb, site=self.site(frame))
+                    return
                 if v >= self.max_visits:
                     self._end(st, "cut", "loop:bb%d" % bb, site=self.site(frame))
                     return
